@@ -71,9 +71,12 @@ def build(ub, algebra_text):
     ub.emit_fn(TYPES, "get_bv_type", "verify", impl="trait TypeCheck", spec_key="ExprRef::get_bv_type", cfg=tcfg)
     for m in ("is_bit_vector", "is_array", "is_bool", "get_bit_vector_width", "get_array_data_width", "get_array_index_width"):
         ub.emit_fn(NODES, m, "verify", impl="impl Type", spec_key="Type::" + m, cfg={"receivers": {}, "no_canary": True})
-    bcfg = {"receivers": {}}
+    bcfg = {"receivers": {"self": "node_raw"}}  # `self[e]` inside a builder is the real Index impl (verified above as node_raw)
     for b in L1_BUILDERS:
-        ub.emit_fn(CTX, b, "verify", impl="impl Context", cfg=bcfg)
+        if b in ("zero_extend", "sign_extend"):  # C12: structural contract (contracts/context_l1.spec), stronger than the one other units assume
+            ub.emit_fn(CTX, b, "verify", impl="impl Context", spec_key="l1::" + b, cfg=dict(bcfg, obligation_name=b))
+        else:
+            ub.emit_fn(CTX, b, "verify", impl="impl Context", cfg=bcfg)
     ub.emit_fn(CTX, "bit_vec_val", "verify", impl="impl Context",
                cfg={"receivers": {}, "replace": [["value.try_into()", "try_into_u128(value)"], ["width.try_into()", "try_into_width(width)"]]})
     ub.emit_fn(CTX, "default", "verify", impl="impl Default for Context", spec_key="Context::default",
